@@ -65,42 +65,6 @@ theorem buildFinal_eval {env : Env} {w : Wallet} {r : Request} {st : St} {amount
   simp only [bind_def, assert, hf1, honce, beq_self_eq_true, if_true, Outcome.bind, hso, hfind, hcr, hcnt,
     and_self, decide_true, hchk, hsi, hsub, hfeq, hd]
 
-/-- value of the fee deducted by `deduct_fee` -/
-def feeFinal (env : Env) (r : Request) (n : Nat) (pre : List TxOut) (R : Nat) (c : Script) : Nat :=
-  if strips env r n pre R c then
-    env.fee (vsize n (pre ++ [(r.recipient, (maxTarget r.target).2), (c, R - (maxTarget r.target).2)]))
-  else env.fee (vsize n (pre ++ [(r.recipient, R)]))
-
-/-- the outputs of the transaction that `build` checks -/
-def finalOuts (env : Env) (r : Request) (n : Nat) (pre : List TxOut) (R : Nat) (c : Script) : List TxOut :=
-  if strips env r n pre R c then
-    pre ++ [(r.recipient, (maxTarget r.target).2),
-            (c, R - (maxTarget r.target).2 - feeFinal env r n pre R c)]
-  else pre ++ [(r.recipient, R - feeFinal env r n pre R c)]
-
-/-- postage targets: recipient value at most the cap plus the fee of one extra output -/
-def CapOk (env : Env) (r : Request) (v : Nat) : Prop :=
-  match r.target with
-  | .postage => v ≤ MAX_POSTAGE + env.fee ADDITIONAL_OUTPUT_VBYTES
-  | .exact p => v ≤ p + env.fee ADDITIONAL_OUTPUT_VBYTES
-  | .value _ => True
-
-/-- value target: recipient value at least the requested value -/
-def ReachOk (r : Request) (v : Nat) : Prop :=
-  match r.target with
-  | .value t => t ≤ v
-  | _ => True
-
-/-- value target: recipient value at most requested + larger change dust + fee of one output -/
-def NotAboveOk (env : Env) (r : Request) (v : Nat) : Prop :=
-  match r.target with
-  | .value t => v ≤ t + max (env.dust r.change0) (env.dust r.change1) + env.fee ADDITIONAL_OUTPUT_VBYTES
-  | _ => True
-
-instance (env r v) : Decidable (CapOk env r v) := by unfold CapOk; cases r.target <;> infer_instance
-instance (r v) : Decidable (ReachOk r v) := by unfold ReachOk; cases r.target <;> infer_instance
-instance (env r v) : Decidable (NotAboveOk env r v) := by unfold NotAboveOk; cases r.target <;> infer_instance
-
 theorem TargetOk_of_parts {env : Env} {r : Request} {v : Nat} (h1 : CapOk env r v) (h2 : ReachOk r v)
     (h3 : NotAboveOk env r v) : TargetOk env r v := by
   unfold TargetOk; unfold CapOk at h1; unfold ReachOk at h2; unfold NotAboveOk at h3
